@@ -42,6 +42,24 @@ pub fn transcript_step(s: &mut Sess<LS, ()>, op: &Op, run: &Run) -> String {
             }
             out
         }
+        "rewrite" => {
+            // a small fixed rule set over LS, built by the crate's own string-based constructor
+            let all = [
+                ("comm-b", "(b ?x ?y)", "(b ?y ?x)"),
+                ("uu", "(u (u ?x))", "?x"),
+                ("g-to-u", "(g $0 ?x)", "(u ?x)"),
+                ("lam-b", "(lam $0 (b ?x ?y))", "(b (lam $0 ?x) (lam $0 ?y))"),
+            ];
+            let mut rules: Vec<Rewrite<LS, ()>> = Vec::new();
+            for (k, (n, a, b)) in all.iter().enumerate() {
+                if op.int(0) & (1 << k) != 0 {
+                    rules.push(Rewrite::new(n, a, b));
+                }
+            }
+            let changed = apply_rewrites(&mut s.eg, &rules);
+            let p = s.eg.progress();
+            format!("rewrite -> {changed} ({} {} {} {}) nodes {}", p.number_of_classes, p.number_of_live_classes, p.sum_of_slots, p.sum_of_symmetries, s.eg.total_number_of_nodes())
+        }
         "dump" => {
             let text = crate::exec::capture_stdout(|| s.eg.dump());
             format!("dump {text}")
@@ -177,6 +195,9 @@ impl Check for ReproCheck {
             ops.push(op);
             if w.chance(1, 3) {
                 ops.push(Op::new("probe"));
+            }
+            if is_union && w.chance(1, 4) {
+                ops.push(Op::new("rewrite").i(1 + w.below(15) as i64));
             }
             if is_union && w.chance(1, 3) && !terms.is_empty() {
                 ops.push(Op::new("match").t(w.pick(&terms).clone()));
